@@ -735,6 +735,24 @@ def part3(ctx, env, history=None):
         ctx.case({'m2m': executed}, nontrivial=len(real) >= 2, kind='m2m')
         for r in real: ctx.count('m2m:%s:%s' % (r['op']['k'], r['res'].get('err', 'ok')))
         bad = oracle3(real)
+        if bad and not any(v['key'] == bad[0]['kind'] for v in ctx.violations):
+            # minimise on the real code: drop steps / writer operations / initial links while the same kind persists
+            kind = bad[0]['kind']; cur = executed; budget = 80; changed = True
+            while changed and budget > 0:
+                changed = False
+                cands = [dict(cur, steps=cur['steps'][:i] + cur['steps'][i + 1:]) for i in range(len(cur['steps']))]
+                cands += [dict(cur, steps=[dict(st, w=st['w'][:j] + st['w'][j + 1:]) if k == i else st for k, st in enumerate(cur['steps'])])
+                          for i, st in enumerate(cur['steps']) for j in range(len(st['w']))]
+                cands += [dict(cur, links=cur['links'][:j] + cur['links'][j + 1:]) for j in range(len(cur['links']))]
+                for c in cands:
+                    budget -= 1
+                    if budget <= 0: break
+                    try: r2 = run_history(c)
+                    except Exception: continue
+                    b2 = [b for b in oracle3(r2) if b['kind'] == kind]
+                    if b2:
+                        cur = {'links': c['links'], 'steps': [{'w': r['w'], 'op': r['op']} for r in r2]}; bad = b2; changed = True; break
+            executed = cur
         if bad:
             ctx.violation('a fully loaded many-to-many collection that was observed changed without an error', {'m2m': executed}, observed=bad[0],
                           expected='the items observed first, or UnrepeatableReadError', key=bad[0]['kind'])
